@@ -328,41 +328,49 @@ end
 /-- every binding of the value map relates observationally equal values -/
 def K (s : St) : Prop := ∀ p ∈ s.vm, ValSim s.w p.1 p.2
 
+/-- when `m` returns normally from `s`: the value map is still sound, every cell that existed is
+    still there with the same core, and the result satisfies `Q`.  (Nothing is claimed when `m`
+    raises: an abandoned clone is taken apart again.) -/
 def SGoodAt (m : M α) (s : St) (Q : α → St → Prop) : Prop :=
-  K (m s).2 ∧ CoreLe s.w (m s).2.w ∧ ∀ a, (m s).1 = .ok a → Q a (m s).2
+  ∀ a, (m s).1 = .ok a → K (m s).2 ∧ CoreLe s.w (m s).2.w ∧ Q a (m s).2
 
 theorem SGoodAt.pure {a : α} {s : St} {Q : α → St → Prop} (hK : K s) (hQ : Q a s) :
-    SGoodAt (Pure.pure a : M α) s Q :=
-  ⟨hK, CoreLe.refl _, by intro b hb; cases hb; exact hQ⟩
+    SGoodAt (Pure.pure a : M α) s Q := by
+  intro b hb; cases hb; exact ⟨hK, CoreLe.refl _, hQ⟩
 
-theorem SGoodAt.fail {e : Err} {s : St} {Q : α → St → Prop} (hK : K s) :
-    SGoodAt (Clone.fail e : M α) s Q :=
-  ⟨hK, CoreLe.refl _, by intro b hb; cases hb⟩
+theorem SGoodAt.fail {e : Err} {s : St} {Q : α → St → Prop} :
+    SGoodAt (Clone.fail e : M α) s Q := by
+  intro b hb; cases hb
 
-theorem SGoodAt.raise {why : String} {s : St} {Q : α → St → Prop} (hK : K s) :
-    SGoodAt (Clone.raise why : M α) s Q := SGoodAt.fail hK
+theorem SGoodAt.raise {why : String} {s : St} {Q : α → St → Prop} :
+    SGoodAt (Clone.raise why : M α) s Q := SGoodAt.fail
 
-theorem SGoodAt.unsupported {why : String} {s : St} {Q : α → St → Prop} (hK : K s) :
-    SGoodAt (Clone.unsupported why : M α) s Q := SGoodAt.fail hK
+theorem SGoodAt.unsupported {why : String} {s : St} {Q : α → St → Prop} :
+    SGoodAt (Clone.unsupported why : M α) s Q := SGoodAt.fail
 
 theorem SGoodAt.bind {m : M α} {f : α → M β} {s : St} {Q : α → St → Prop} {R : β → St → Prop}
     (hm : SGoodAt m s Q)
     (hf : ∀ a s1, K s1 → CoreLe s.w s1.w → Q a s1 → SGoodAt (f a) s1 R) :
     SGoodAt (m >>= f) s R := by
-  obtain ⟨hI, hl, hq⟩ := hm
   show SGoodAt (M.bind m f) s R
   unfold SGoodAt M.bind
+  intro b hb
   rcases hms : m s with ⟨r, s1⟩
-  rw [hms] at hI hl hq
+  rw [hms] at hb
   cases r with
-  | error e => exact ⟨hI, hl, by intro b hb; cases hb⟩
+  | error e => cases hb
   | ok a =>
-    obtain ⟨hI2, hl2, hq2⟩ := hf a s1 hI hl (hq a rfl)
-    exact ⟨hI2, hl.trans hl2, hq2⟩
+    have := hm a (by rw [hms])
+    rw [hms] at this
+    obtain ⟨hK1, hl1, hq1⟩ := this
+    obtain ⟨hK2, hl2, hq2⟩ := hf a s1 hK1 hl1 hq1 b hb
+    exact ⟨hK2, hl1.trans hl2, hq2⟩
 
 theorem SGoodAt.mono {m : M α} {s : St} {Q R : α → St → Prop} (hm : SGoodAt m s Q)
-    (h : ∀ a s1, K s1 → CoreLe s.w s1.w → Q a s1 → R a s1) : SGoodAt m s R :=
-  ⟨hm.1, hm.2.1, fun a ha => h a _ hm.1 hm.2.1 (hm.2.2 a ha)⟩
+    (h : ∀ a s1, K s1 → CoreLe s.w s1.w → Q a s1 → R a s1) : SGoodAt m s R := by
+  intro a ha
+  obtain ⟨x, y, z⟩ := hm a ha
+  exact ⟨x, y, h a _ x y z⟩
 
 macro "sbind " h:term " with " a:ident s1:ident hK:ident hl:ident hq:ident : tactic =>
   `(tactic| (refine SGoodAt.bind $h ?_; intro $a $s1 $hK $hl $hq))
@@ -374,82 +382,125 @@ theorem K.mono {s s' : St} (hK : K s) (hle : CoreLe s.w s'.w) (hvm : s'.vm = s.v
 
 theorem SGoodAt.alloc {s : St} (c : Cell) (hK : K s) :
     SGoodAt (Clone.alloc c) s (fun r s1 => r = s.w.length ∧ coreAt s1.w r = some c.core ∧ s1.vm = s.vm) := by
-  refine ⟨hK.mono (CoreLe.append _ _) rfl, CoreLe.append _ _, ?_⟩
   intro a ha
   simp only [Clone.alloc, Except.ok.injEq] at ha
   subst ha
-  exact ⟨rfl, coreAt_append_new _ _, rfl⟩
+  exact ⟨hK.mono (CoreLe.append _ _) rfl, CoreLe.append _ _, rfl, coreAt_append_new _ _, rfl⟩
 
 /-- a write that only changes back links -/
 theorem SGoodAt.setNonCore {s : St} {i : Nat} {c c' : Cell} (hK : K s) (h : s.w[i]? = some c)
     (hc : c'.core = c.core) : SGoodAt (setCell i c') s (fun _ _ => True) :=
-  ⟨hK.mono (CoreLe.set h hc) rfl, CoreLe.set h hc, fun _ _ => trivial⟩
+  fun _ _ => ⟨hK.mono (CoreLe.set h hc) rfl, CoreLe.set h hc, trivial⟩
+
+/-- an operation on the cloner's bookkeeping (pending outputs, created nodes) -/
+theorem SGoodAt.bookkeeping {m : M α} {s : St} (hK : K s)
+    (h : ∀ s, (m s).2.w = s.w ∧ (m s).2.vm = s.vm) : SGoodAt m s (fun _ s1 => s1.w = s.w) := by
+  intro a _
+  obtain ⟨hw, hvm⟩ := h s
+  refine ⟨?_, by rw [hw]; exact CoreLe.refl _, hw⟩
+  intro p hp
+  rw [hvm] at hp
+  rw [hw]
+  exact hK p hp
 
 theorem SGoodAt.readVal {s : St} {i : Nat} (hK : K s) :
     SGoodAt (Clone.readVal i) s (fun r s1 => s1 = s ∧ s.w[i]? = some (.val r)) := by
   unfold SGoodAt Clone.readVal
   split
-  · next v h => exact ⟨hK, CoreLe.refl _, by intro a ha; cases ha; exact ⟨rfl, h⟩⟩
-  · exact ⟨hK, CoreLe.refl _, by intro a ha; cases ha⟩
+  · next v h => intro a ha; cases ha; exact ⟨hK, CoreLe.refl _, rfl, h⟩
+  · intro a ha; cases ha
 
 theorem SGoodAt.readNode {s : St} {i : Nat} (hK : K s) :
     SGoodAt (Clone.readNode i) s (fun r s1 => s1 = s ∧ s.w[i]? = some (.node r)) := by
   unfold SGoodAt Clone.readNode
   split
-  · next v h => exact ⟨hK, CoreLe.refl _, by intro a ha; cases ha; exact ⟨rfl, h⟩⟩
-  · exact ⟨hK, CoreLe.refl _, by intro a ha; cases ha⟩
+  · next v h => intro a ha; cases ha; exact ⟨hK, CoreLe.refl _, rfl, h⟩
+  · intro a ha; cases ha
 
 theorem SGoodAt.readGraph {s : St} {i : Nat} (hK : K s) :
     SGoodAt (Clone.readGraph i) s (fun r s1 => s1 = s ∧ s.w[i]? = some (.graph r)) := by
   unfold SGoodAt Clone.readGraph
   split
-  · next v h => exact ⟨hK, CoreLe.refl _, by intro a ha; cases ha; exact ⟨rfl, h⟩⟩
-  · exact ⟨hK, CoreLe.refl _, by intro a ha; cases ha⟩
+  · next v h => intro a ha; cases ha; exact ⟨hK, CoreLe.refl _, rfl, h⟩
+  · intro a ha; cases ha
 
 theorem SGoodAt.readType {s : St} {i : Nat} (hK : K s) :
     SGoodAt (Clone.readType i) s (fun r s1 => s1 = s ∧ s.w[i]? = some (.type r)) := by
   unfold SGoodAt Clone.readType
   split
-  · next v h => exact ⟨hK, CoreLe.refl _, by intro a ha; cases ha; exact ⟨rfl, h⟩⟩
-  · exact ⟨hK, CoreLe.refl _, by intro a ha; cases ha⟩
+  · next v h => intro a ha; cases ha; exact ⟨hK, CoreLe.refl _, rfl, h⟩
+  · intro a ha; cases ha
 
 theorem SGoodAt.readShape {s : St} {i : Nat} (hK : K s) :
     SGoodAt (Clone.readShape i) s (fun r s1 => s1 = s ∧ s.w[i]? = some (.shape r)) := by
   unfold SGoodAt Clone.readShape
   split
-  · next v h => exact ⟨hK, CoreLe.refl _, by intro a ha; cases ha; exact ⟨rfl, h⟩⟩
-  · exact ⟨hK, CoreLe.refl _, by intro a ha; cases ha⟩
+  · next v h => intro a ha; cases ha; exact ⟨hK, CoreLe.refl _, rfl, h⟩
+  · intro a ha; cases ha
 
 theorem SGoodAt.readDict {s : St} {i : Nat} (hK : K s) :
     SGoodAt (Clone.readDict i) s (fun r s1 => s1 = s ∧ s.w[i]? = some (.dict r)) := by
   unfold SGoodAt Clone.readDict
   split
-  · next v h => exact ⟨hK, CoreLe.refl _, by intro a ha; cases ha; exact ⟨rfl, h⟩⟩
-  · exact ⟨hK, CoreLe.refl _, by intro a ha; cases ha⟩
+  · next v h => intro a ha; cases ha; exact ⟨hK, CoreLe.refl _, rfl, h⟩
+  · intro a ha; cases ha
 
 theorem SGoodAt.readAttr {s : St} {i : Nat} (hK : K s) :
     SGoodAt (Clone.readAttr i) s (fun r s1 => s1 = s ∧ s.w[i]? = some (.attr r)) := by
   unfold SGoodAt Clone.readAttr
   split
-  · next v h => exact ⟨hK, CoreLe.refl _, by intro a ha; cases ha; exact ⟨rfl, h⟩⟩
-  · exact ⟨hK, CoreLe.refl _, by intro a ha; cases ha⟩
+  · next v h => intro a ha; cases ha; exact ⟨hK, CoreLe.refl _, rfl, h⟩
+  · intro a ha; cases ha
 
 theorem SGoodAt.vmGet {s : St} {v : Nat} (hK : K s) :
-    SGoodAt (Clone.vmGet v) s (fun r s1 => s1 = s ∧ r = s.vm.lookup v) :=
-  ⟨hK, CoreLe.refl _, by intro a ha; simp only [Clone.vmGet, Except.ok.injEq] at ha; exact ⟨rfl, ha.symm⟩⟩
+    SGoodAt (Clone.vmGet v) s (fun r s1 => s1 = s ∧ r = s.vm.lookup v) := by
+  intro a ha
+  simp only [Clone.vmGet, Except.ok.injEq] at ha
+  exact ⟨hK, CoreLe.refl _, rfl, ha.symm⟩
 
 theorem SGoodAt.getVm {s : St} (hK : K s) :
-    SGoodAt Clone.getVm s (fun r s1 => s1 = s ∧ r = s.vm) :=
-  ⟨hK, CoreLe.refl _, by intro a ha; simp only [Clone.getVm, Except.ok.injEq] at ha; exact ⟨rfl, ha.symm⟩⟩
+    SGoodAt Clone.getVm s (fun r s1 => s1 = s ∧ r = s.vm) := by
+  intro a ha
+  simp only [Clone.getVm, Except.ok.injEq] at ha
+  exact ⟨hK, CoreLe.refl _, rfl, ha.symm⟩
+
+theorem SGoodAt.pendHas {s : St} {v : Nat} (hK : K s) :
+    SGoodAt (Clone.pendHas v) s (fun _ s1 => s1 = s) :=
+  fun _ _ => ⟨hK, CoreLe.refl _, rfl⟩
 
 theorem SGoodAt.vmSet {s : St} {a b : Nat} (hK : K s) (hab : ValSim s.w a b) :
     SGoodAt (Clone.vmSet a b) s (fun _ s1 => s1.w = s.w) := by
-  refine ⟨?_, CoreLe.refl _, by intro _ _; rfl⟩
+  intro _ _
+  refine ⟨?_, CoreLe.refl _, rfl⟩
   intro p hp
   simp only [Clone.vmSet, List.mem_cons] at hp
   rcases hp with h | h
   · subst h; exact hab
   · exact hK p h
+
+theorem guarded_ok {body : M Nat} {s s' : St} {x : Nat} (h : body s = (.ok x, s')) :
+    guarded body s = (.ok x, s') := by
+  simp [guarded, onError, h]
+
+theorem guarded_err {body : M Nat} {s s' : St} {e : Err} (h : body s = (.error e, s')) :
+    (guarded body s).1 = .error e := by
+  simp [guarded, onError, h]
+
+/-- `try ... except: detach; raise`: nothing changes on the normal path -/
+theorem guarded_sim {body : M Nat} {Q : Nat → St → Prop} {s : St} (hb : SGoodAt body s Q) :
+    SGoodAt (guarded body) s Q := by
+  intro a ha
+  rcases hbs : body s with ⟨r, s'⟩
+  cases r with
+  | ok x =>
+    rw [guarded_ok hbs] at ha ⊢
+    have := hb x (by rw [hbs])
+    rw [hbs] at this
+    cases ha
+    exact this
+  | error e =>
+    rw [guarded_err hbs] at ha
+    cases ha
 
 /-! reading cells through their cores -/
 
@@ -636,7 +687,8 @@ theorem cloneOutput_sim {s : St} (i o : Nat) (hK : K s) :
       (cDictPair_mono (f := fun d => { data := d.data, invalid := [] }) (hl6.trans hl7) hpr)
       (cDictPair_mono (f := fun d => { data := d.data, invalid := d.invalid }) hl7 hme)
   sbind (SGoodAt.vmSet hK7 hsim) with u s8 hK8 hl8 hq8
-  exact SGoodAt.pure hK8 (by rw [hq8]; exact hsim)
+  sbind (SGoodAt.bookkeeping (m := pendDiscard o) hK8 (fun _ => ⟨rfl, rfl⟩)) with u2 s9 hK9 hl9 hq9
+  exact SGoodAt.pure hK9 (by rw [hq9, hq8]; exact hsim)
 
 theorem cloneOutputs_sim :
     ∀ (os : List Nat) (i : Nat) (s : St), K s →
@@ -706,23 +758,23 @@ theorem checkInput_sim {s : St} (g v : Nat) (hK : K s) : SGoodAt (checkInput g v
   unfold checkInput
   sbind (SGoodAt.readVal hK) with vs s1 hK1 hl1 hq1
   split
-  · exact SGoodAt.raise hK1
+  · exact SGoodAt.raise
   · split
-    · exact SGoodAt.raise hK1
+    · exact SGoodAt.raise
     · exact SGoodAt.pure hK1 trivial
 
 theorem checkOwned_sim {s : St} (g v : Nat) (hK : K s) : SGoodAt (checkOwned g v) s (fun _ _ => True) := by
   unfold checkOwned
   sbind (SGoodAt.readVal hK) with vs s1 hK1 hl1 hq1
   split
-  · exact SGoodAt.raise hK1
+  · exact SGoodAt.raise
   · exact SGoodAt.pure hK1 trivial
 
 theorem checkNamed_sim {s : St} (v : Nat) (hK : K s) : SGoodAt (checkNamed v) s (fun _ _ => True) := by
   unfold checkNamed
   sbind (SGoodAt.readVal hK) with vs s1 hK1 hl1 hq1
   split
-  · exact SGoodAt.unsupported hK1
+  · exact SGoodAt.unsupported
   · exact SGoodAt.pure hK1 trivial
 
 theorem checkNodeFree_sim {s : St} (g n : Nat) (hK : K s) :
@@ -730,19 +782,17 @@ theorem checkNodeFree_sim {s : St} (g n : Nat) (hK : K s) :
   unfold checkNodeFree
   sbind (SGoodAt.readNode hK) with ns s1 hK1 hl1 hq1
   split
-  · exact SGoodAt.raise hK1
-  · split
-    · exact SGoodAt.unsupported hK1
-    · exact SGoodAt.pure hK1 trivial
+  · exact SGoodAt.raise
+  · exact SGoodAt.pure hK1 trivial
 
 theorem checkInitEntry_sim {s : St} (e : String × Nat) (hK : K s) :
     SGoodAt (checkInitEntry e) s (fun _ _ => True) := by
   unfold checkInitEntry
   sbind (SGoodAt.readVal hK) with vs s1 hK1 hl1 hq1
   split
-  · exact SGoodAt.raise hK1
+  · exact SGoodAt.raise
   · split
-    · exact SGoodAt.raise hK1
+    · exact SGoodAt.raise
     · exact SGoodAt.pure hK1 trivial
 
 theorem setNodeGraph_sim {s : St} (g n : Nat) (hK : K s) :
@@ -785,10 +835,14 @@ theorem mapInputs_sim {allow : Bool} : ∀ (l : List (Option Nat)) (s : St), K s
     | none =>
       simp only
       split
-      · sbind (mapInputs_sim rest s1 hK1) with r s2 hK2 hl2 hq2
-        obtain ⟨rfl, hq2⟩ := hq2
-        exact SGoodAt.pure hK2 ⟨rfl, .cons (.inl rfl) hq2⟩
-      · exact SGoodAt.raise hK1
+      · sbind (SGoodAt.pendHas (v := v) hK1) with b s1' hK1' hl1' hq1'
+        subst hq1'
+        split
+        · exact SGoodAt.raise
+        · sbind (mapInputs_sim rest s1' hK1') with r s2 hK2 hl2 hq2
+          obtain ⟨rfl, hq2⟩ := hq2
+          exact SGoodAt.pure hK2 ⟨rfl, .cons (.inl rfl) hq2⟩
+      · exact SGoodAt.raise
 
 theorem graphsSim_of_all2 {w : World} : ∀ {l l' : List Nat}, All2 (GraphSim w) l l' → GraphsSim w l l'
   | _, _, .nil => .nil
@@ -844,6 +898,13 @@ theorem all2_map_right {α β : Type} {R : α → β → Prop} {f : α → β} (
 theorem remapDev_sim {s : St} (hK : K s) (d : List DevCfg) : DevSim s.w d (remapDev s.vm d) :=
   all2_map_right (fun c => ⟨rfl, all2_map_right (fun sp => remapSpec_sim hK sp) c.specs⟩) d
 
+theorem allocNode_sim {s : St} (c : NodeS) (hK : K s) :
+    SGoodAt (allocNode c) s (fun r s1 => coreAt s1.w r = some (Cell.node c).core) := by
+  unfold allocNode
+  sbind (SGoodAt.alloc _ hK) with n' s1 hK1 hl1 hn'
+  sbind (SGoodAt.bookkeeping (m := createdAdd n') hK1 (fun _ => ⟨rfl, rfl⟩)) with u s2 hK2 hl2 hq2
+  exact SGoodAt.pure hK2 (by rw [hq2]; exact hn'.2.1)
+
 theorem cloneNode_sim {allow : Bool} {rec : Nat → M Nat}
     (hrec : ∀ g s, K s → SGoodAt (rec g) s (fun g' s1 => GraphSim s1.w g g'))
     (n : Nat) {s : St} (hK : K s) :
@@ -860,7 +921,7 @@ theorem cloneNode_sim {allow : Bool} {rec : Nat → M Nat}
   sbind (cloneOutputs_sim ns.outputs 0 s5 hK5) with outs s6 hK6 hl6 houts
   sbind (SGoodAt.getVm hK6) with vm s7 hK7 hl7 hq7
   obtain ⟨rfl, rfl⟩ := hq7
-  sbind (SGoodAt.alloc _ hK7) with n' s8 hK8 hl8 hn'
+  sbind (allocNode_sim _ hK7) with n' s8 hK8 hl8 hn'
   sbind (forM'_sim outs s8 hK8 (fun v _ s9 hK9 => setProducer_sim n' v hK9)) with u s9 hK9 hl9 hq9
   sbind (addUses_sim n' ins 0 s9 hK9) with u2 s10 hK10 hl10 hq10
   have l2 : CoreLe s2.w s10.w := hl3.trans (hl4.trans (hl5.trans (hl6.trans (hl8.trans (hl9.trans hl10)))))
@@ -871,8 +932,8 @@ theorem cloneNode_sim {allow : Bool} {rec : Nat → M Nat}
   have l8 : CoreLe s8.w s10.w := hl9.trans hl10
   have hattrs' : All2 (AttrSim s10.w) ns.attrs attrs :=
     All2.mono (R := fun (ka : String × Nat) r => AttrSim s3.w ka r) (fun _ _ h => AttrSim.mono l3 h) hattrs
-  refine SGoodAt.pure hK10 (.mk n n' _ _ attrs (cNode_mono l2 (cNode_of hns))
-    (cNode_mono l8 (cNode_ofCore hn'.2.1)) rfl rfl rfl rfl rfl rfl
+  refine SGoodAt.pure hK10 (NodeSim.mk n n' _ _ attrs (cNode_mono l2 (cNode_of hns))
+    (cNode_mono l8 (cNode_ofCore hn')) rfl rfl rfl rfl rfl rfl
     (All2.mono (fun _ _ h => RefSim.mono l2 h) hins) (All2.mono (fun _ _ h => ValSim.mono l7 h) houts)
     (attrsSim_of_all2 hattrs') rfl ?_ ?_ ((remapDev_sim hK7 ns.dev).mono l7))
   · obtain ⟨d, a, b⟩ := hpr
@@ -889,7 +950,7 @@ theorem getMapped_sim {s : St} (v : Nat) (hK : K s) :
   obtain ⟨rfl, rfl⟩ := hq1
   cases hlk : s1.vm.lookup v with
   | some v' => exact SGoodAt.pure hK1 (hK1 (v, v') (mem_of_lookup hlk))
-  | none => exact SGoodAt.raise hK1
+  | none => exact SGoodAt.raise
 
 def initStep (w : World) (acc : List (String × Nat)) (v : Nat) : List (String × Nat) :=
   match cVal w v with
@@ -909,7 +970,7 @@ theorem initEntries_sim : ∀ (l : List Nat) (acc : List (String × Nat)) (s : S
     sbind (SGoodAt.readVal hK) with vs s1 hK1 hl1 hq1
     obtain ⟨rfl, hvs⟩ := hq1
     split
-    · exact SGoodAt.raise hK1
+    · exact SGoodAt.raise
     · next nm hnm =>
       refine (initEntries_sim rest (dictSet acc nm v) s1 hK1).mono ?_
       intro r s2 _ _ ⟨h1, h2, h3⟩
@@ -959,6 +1020,17 @@ theorem mkGraph_sim (src : GraphS) (inputs outputs nodes inits : List Nat) {s : 
   · obtain ⟨d, a, b⟩ := hme
     exact ⟨d, _, cDict_mono (hl5.trans l5) a, cDict_mono (hl5.trans l5) b, rfl, rfl⟩
 
+theorem allOutputs_sim : ∀ (l : List Nat) (s : St), K s →
+    SGoodAt (allOutputs l) s (fun _ s1 => s1 = s)
+  | [], s, hK => SGoodAt.pure hK rfl
+  | n :: ns, s, hK => by
+    unfold allOutputs
+    sbind (SGoodAt.readNode hK) with x s1 hK1 hl1 hq1
+    obtain ⟨rfl, _⟩ := hq1
+    sbind (allOutputs_sim ns s1 hK1) with r s2 hK2 hl2 hq2
+    subst hq2
+    exact SGoodAt.pure hK2 rfl
+
 theorem cloneGraphStep_sim {allow : Bool} {rec : Nat → M Nat}
     (hrec : ∀ g s, K s → SGoodAt (rec g) s (fun g' s1 => GraphSim s1.w g g'))
     (g : Nat) {s : St} (hK : K s) :
@@ -970,7 +1042,13 @@ theorem cloneGraphStep_sim {allow : Bool} {rec : Nat → M Nat}
     (fun v _ s2 hK2 => cloneOrGetValue_sim v hK2)) with inputs s2 hK2 hl2 hin
   sbind (mapM'_sim (R := fun v r s => ValSim s.w v r) (fun _ _ _ _ h hle => h.mono hle)
     (gs.inits.map (fun e => e.2)) s2 hK2 (fun v _ s3 hK3 => cloneOrGetValue_sim v hK3))
-    with inits s3 hK3 hl3 hinits
+    with inits s3a hK3a hl3a hinits
+  sbind (allOutputs_sim gs.nodes s3a hK3a) with pouts s3b hK3b hl3b hq3b
+  subst hq3b
+  sbind (SGoodAt.bookkeeping (m := pendAdd pouts) hK3b (fun _ => ⟨rfl, rfl⟩)) with u0 s3 hK3 hl3c hq3c
+  have hl3 : CoreLe s2.w s3.w := hl3a.trans hl3c
+  have hinits : All2 (fun a b => ValSim s3.w a b) (gs.inits.map (fun e => e.2)) inits :=
+    All2.mono (fun _ _ h => ValSim.mono hl3c h) hinits
   sbind (mapM'_sim (R := fun n r s => NodeSim s.w n r) (fun _ _ _ _ h hle => h.mono hle) gs.nodes s3 hK3
     (fun n _ s4 hK4 => cloneNode_sim hrec n hK4)) with nodes s4 hK4 hl4 hnodes
   sbind (mapM'_sim (R := fun v r s => ValSim s.w v r) (fun _ _ _ _ h hle => h.mono hle) gs.outputs s4 hK4
@@ -986,25 +1064,30 @@ theorem cloneGraphStep_sim {allow : Bool} {rec : Nat → M Nat}
 
 theorem cloneGraph_sim {allow : Bool} : ∀ (fuel g : Nat) (s : St), K s →
     SGoodAt (cloneGraph allow fuel g) s (fun g' s1 => GraphSim s1.w g g')
-  | 0, _, s, hK => SGoodAt.fail hK
-  | f + 1, g, s, hK => cloneGraphStep_sim (fun g' s' hK' => cloneGraph_sim f g' s' hK') g hK
+  | 0, _, s, hK => SGoodAt.fail
+  | f + 1, g, s, hK => guarded_sim (cloneGraphStep_sim (fun g' s' hK' => cloneGraph_sim f g' s' hK') g hK)
 
 theorem withFreshMap_sim {m : M α} {Q : α → St → Prop} {s : St} (hK : K s)
     (hm : ∀ s1, K s1 → s1.w = s.w → SGoodAt m s1 Q)
-    (hQ : ∀ a s1 vm, Q a s1 → Q a { s1 with vm := vm }) :
+    (hQ : ∀ a s1 vm pd cr, Q a s1 → Q a { s1 with vm := vm, pend := pd, created := cr }) :
     SGoodAt (withFreshMap m) s Q := by
-  have hK0 : K { s with vm := [] } := by intro p hp; cases hp
-  obtain ⟨h1, h2, h3⟩ := hm _ hK0 rfl
-  unfold SGoodAt withFreshMap
-  rcases hms : m { s with vm := [] } with ⟨r, s'⟩
+  have hK0 : K { s with vm := [], pend := [], created := [] } := by intro p hp; cases hp
+  have h := hm _ hK0 rfl
+  intro a ha
+  unfold withFreshMap at ha ⊢
+  rcases hms : m { s with vm := [], pend := [], created := [] } with ⟨r, s'⟩
+  rw [hms] at ha
+  simp only at ha ⊢
+  subst ha
+  obtain ⟨h1, h2, h3⟩ := h a (by rw [hms])
   rw [hms] at h1 h2 h3
-  refine ⟨?_, h2, fun a ha => hQ a s' s.vm (h3 a ha)⟩
+  refine ⟨?_, h2, hQ a s' s.vm s.pend s.created h3⟩
   intro p hp
   exact (hK p hp).mono h2
 
 theorem graphClone_sim {allow : Bool} (fuel g : Nat) {s : St} (hK : K s) :
     SGoodAt (graphClone fuel allow g) s (fun g' s1 => GraphSim s1.w g g') :=
-  withFreshMap_sim hK (fun s1 hK1 _ => cloneGraph_sim fuel g s1 hK1) (fun _ _ _ h => h)
+  withFreshMap_sim hK (fun s1 hK1 _ => cloneGraph_sim fuel g s1 hK1) (fun _ _ _ _ _ h => h)
 
 /-! functions and models -/
 
@@ -1048,15 +1131,15 @@ theorem SGoodAt.readFunc {s : St} {i : Nat} (hK : K s) :
     SGoodAt (Clone.readFunc i) s (fun r s1 => s1 = s ∧ s.w[i]? = some (.func r)) := by
   unfold SGoodAt Clone.readFunc
   split
-  · next v h => exact ⟨hK, CoreLe.refl _, by intro a ha; cases ha; exact ⟨rfl, h⟩⟩
-  · exact ⟨hK, CoreLe.refl _, by intro a ha; cases ha⟩
+  · next v h => intro a ha; cases ha; exact ⟨hK, CoreLe.refl _, rfl, h⟩
+  · intro a ha; cases ha
 
 theorem SGoodAt.readModel {s : St} {i : Nat} (hK : K s) :
     SGoodAt (Clone.readModel i) s (fun r s1 => s1 = s ∧ s.w[i]? = some (.model r)) := by
   unfold SGoodAt Clone.readModel
   split
-  · next v h => exact ⟨hK, CoreLe.refl _, by intro a ha; cases ha; exact ⟨rfl, h⟩⟩
-  · exact ⟨hK, CoreLe.refl _, by intro a ha; cases ha⟩
+  · next v h => intro a ha; cases ha; exact ⟨hK, CoreLe.refl _, rfl, h⟩
+  · intro a ha; cases ha
 
 theorem cFunc_of {w : World} {i : Nat} {v : FuncS} (h : w[i]? = some (.func v)) : cFunc w i = some v := by
   simp [cFunc, coreAt, h, Cell.core]
@@ -1071,7 +1154,7 @@ theorem cModel_ofCore {w : World} {i : Nat} {v : ModelS} (h : coreAt w i = some 
 
 theorem funcClone_sim (fuel f : Nat) {s : St} (hK : K s) :
     SGoodAt (funcClone fuel f) s (fun f' s1 => FuncSim s1.w f f') := by
-  refine withFreshMap_sim hK (fun s1 hK1 _ => ?_) (fun _ _ _ h => h)
+  refine withFreshMap_sim hK (fun s1 hK1 _ => ?_) (fun _ _ _ _ _ h => h)
   sbind (SGoodAt.readFunc hK1) with fs s2 hK2 hl2 hq2
   obtain ⟨rfl, hfs⟩ := hq2
   sbind (cloneGraph_sim fuel fs.graph s2 hK2) with g' s3 hK3 hl3 hg'
